@@ -16,7 +16,8 @@ head = subprocess.run("git -C /repo rev-parse --short HEAD", shell=True, capture
 meta = dict(
     id=name, property=prop, origin="independent sub-agent given only the property text and a scratch worktree",
     repo_commit_tested=head,
-    needs_to_manifest=notes.strip().split("\n\n")[0][:1500],
+    summary=notes.strip().split("\n")[0].lstrip("# ")[:200],
+    needs_to_manifest=notes.strip()[:1800],
     what_was_run=[
         "git worktree add of /repo HEAD; demo.py on the clean tree: exit %s" % res.get("demo_without_change_rc"),
         "git apply patch.diff; /venv/bin/python -m pytest -q -p no:cacheprovider: %s passed, failures=%s" % (res.get("tests_passed"), res.get("tests_failed")),
@@ -29,5 +30,11 @@ meta = dict(
     valid_seed=(res.get("tests_passed") == 42 and not res.get("tests_failed") and res.get("demo_without_change_rc") == 0
                 and res.get("demo_with_change_rc") not in (0, None)),
 )
+old = os.path.join(dst, "meta.json")
+if os.path.exists(old):
+    prev = json.load(open(old))
+    for k in ("strengthened", "missed_initially"):
+        if k in prev:
+            meta[k] = prev[k]
 json.dump(meta, open(os.path.join(dst, "meta.json"), "w"), indent=1)
 print(name, "valid" if meta["valid_seed"] else "INVALID", "detected" if meta["detected"] else "MISSED", meta["detected_by_signatures"][:4])
